@@ -474,6 +474,94 @@ def ske_hash_by_version(chk):
     chk.floor('policy/version cases', n, 4)
 
 
+def key_export_seed(chk):
+    """RFC 5705 section 4: exported keying material is PRF(master_secret, label, client_random + server_random [+ uint16 context
+    length + context]); "a zero-length context value is not the same as no context".  Decided by partial evaluation of
+    br_ssl_key_export() for context = NULL / non-NULL with length 0 / non-NULL with length 0x1234: the number of seed chunks, the
+    image of the chunk array and of the length prefix, the secret and its length."""
+    from .. import oblig as _o, fold as _f, irf as _irf
+    R = 'key-export-seed'
+    src = 'src/ssl/ssl_keyexport.c'
+    fn = 'br_ssl_key_export'
+    U = _o.funit(src)
+    if fn not in U.funcs:
+        raise AnalysisBroken('%s vanished' % fn)
+    F = U.func(fn)
+    ps = F.f['params']
+    if len(ps) != 6:
+        raise AnalysisBroken('%s: signature changed' % fn)
+    L = _irf.Layouts(build.load_unit(src))
+
+    def off(f):
+        r = L.field('br_ssl_engine_context', f)
+        if r is None:
+            raise AnalysisBroken('br_ssl_engine_context.%s vanished' % f)
+        return r
+    cr, sr = off('client_random'), off('server_random')
+    ses = off('session')
+    ms = L.field('br_ssl_session_parameters', 'master_secret')
+    cases = [('no context', [dict(kind='assume', n=ps[4]['n'], ty=ps[4]['ty'], pred='eq', value='null', param=True)], 2, None),
+             ('empty context (non-NULL, length 0)', [dict(kind='assume', n=ps[4]['n'], ty=ps[4]['ty'], pred='ne', value='null', param=True),
+                                                    dict(kind='assume', n=ps[5]['n'], ty=ps[5]['ty'], pred='eq', value=0, param=True)], 4, 0),
+             ('context of 0x1234 bytes', [dict(kind='assume', n=ps[4]['n'], ty=ps[4]['ty'], pred='ne', value='null', param=True),
+                                          dict(kind='assume', n=ps[5]['n'], ty=ps[5]['ty'], pred='eq', value=0x1234, param=True)], 4, 0x1234)]
+    n = 0
+    for label, hy, wnum, clen in cases:
+        Fo = U.optimise(fn, hy, ())
+        reach = sorted(_f._reach_insts(Fo), key=lambda c: c['id'])
+        ic = [c for c in reach if c['op'] == 'call' and c.get('callee') is None and len(c['ops']) == 7]
+        inst = '%s: %s => PRF seed has %d chunks%s' % (fn, label, wnum, '' if clen is None else ', the third is the big-endian uint16 %#x' % clen)
+        n += 1
+        if len(ic) != 1:
+            chk.violation(R, inst, src, '%d PRF calls remain under the hypothesis' % len(ic), key='%s %s' % (R, label))
+            continue
+        c = ic[0]
+        bad = []
+        if not (c['ops'][5]['k'] == 'c' and c['ops'][5]['v'] == wnum):
+            bad.append('seed chunk count is %s' % (c['ops'][5].get('v') if c['ops'][5]['k'] == 'c' else 'not constant'))
+        sb, so = Fo.addr_of(c['ops'][2])
+        if not (sb == {'k': 'a', 'v': 0} and so == ses[0] + ms[0] and c['ops'][3]['k'] == 'c' and c['ops'][3]['v'] == ms[1]):
+            bad.append('secret is not the %d-byte session master secret' % ms[1])
+        if c['ops'][4] != {'k': 'a', 'v': 3} or c['ops'][0] != {'k': 'a', 'v': 1} or c['ops'][1] != {'k': 'a', 'v': 2}:
+            bad.append('label / output arguments are not forwarded')
+        cb, co = Fo.addr_of(c['ops'][6])
+        img = {}
+        allocas = {}
+        for i in reach:
+            if i['op'] == 'store':
+                b, o = Fo.addr_of(i['ops'][1])
+                if b == cb:
+                    img[o - co] = i['ops'][0]
+                elif b['k'] == 'i' and Fo.insts[b['v']]['op'] == 'alloca':
+                    allocas.setdefault(b['v'], {})[o] = i['ops'][0]
+
+        def is_field(o, f):
+            if o['k'] != 'i':
+                return False
+            b, k = Fo.addr_of(o)
+            return b == {'k': 'a', 'v': 0} and k == f[0]
+
+        def cst(o, v):
+            return o is not None and o['k'] == 'c' and o['v'] == v
+        if not (is_field(img.get(0, {'k': 'x'}), cr) and cst(img.get(8), cr[1])):
+            bad.append('chunk 0 is not the %d-byte client random' % cr[1])
+        if not (is_field(img.get(16, {'k': 'x'}), sr) and cst(img.get(24), sr[1])):
+            bad.append('chunk 1 is not the %d-byte server random' % sr[1])
+        if clen is not None:
+            t = img.get(32)
+            tb = Fo.addr_of(t)[0] if t is not None and t['k'] == 'i' else None
+            timg = allocas.get(tb['v']) if tb and tb['k'] == 'i' else None
+            if not (timg and cst(img.get(40), 2) and cst(timg.get(0), clen >> 8) and cst(timg.get(1), clen & 0xFF)):
+                bad.append('chunk 2 is not the 2-byte big-endian context length (image %s)' % (timg,))
+            if not (img.get(48) == {'k': 'a', 'v': 4} and cst(img.get(56), clen)):
+                bad.append('chunk 3 is not (context, context_len)')
+        if bad:
+            chk.violation(R, inst, src, '; '.join(bad), key='%s %s' % (R, label))
+        else:
+            chk.ok(R, inst, src)
+    chk.floor('key export cases', n, 3)
+
+
 def run(tier):
     chk = report.Check('C01', tier,
                        'Static clauses of "both sides agree": the cipher-suite table of both handshake interpreters equals the IANA registry '
@@ -493,6 +581,7 @@ def run(tier):
     premaster_version(chk)
     handshake_state_reset(chk)
     ske_hash_by_version(chk)
+    key_export_seed(chk)
     from .. import engio, oblig as _ob
     _ob.run_obligations(chk, engio.progress_obligations())
     engio.ready_state(chk)
